@@ -67,6 +67,93 @@ def stub_random():
     return stub
 
 
+FLOAT_SENSITIVE = []
+
+
+def _near(a, b):
+    try:
+        if isinstance(a, bool) or isinstance(b, bool):
+            return False
+        return a != b and abs(a - b) <= 1e-9 * max(1.0, abs(a), abs(b))
+    except Exception:  # noqa: not numbers
+        return False
+
+
+def install_float_watch():
+    """observation only: record every decision the real VM takes that lies within floating-point
+    rounding noise (a comparison of two values that differ by less than 1e-9 relative, a
+    floor/ceil/trunc/round/modulo within 1e-9 of a jump).  The Lean model computes with exact
+    rationals; a run containing such a decision is outside the model's validity and a trace
+    difference in it is not reported (it is counted as `float_sensitive_skipped`)."""
+    from bardolph.runtime import bardolph_math
+    from bardolph.vm.vm_codes import Operator
+    from bardolph.vm.vm_math import VmMath
+    if getattr(VmMath, '_verif_float_watch', False):
+        return
+    VmMath._verif_float_watch = True
+
+    def watch_cmp(fn, name):
+        def wrapped(a, b):
+            if _near(a, b):
+                FLOAT_SENSITIVE.append((name, a, b))
+            return fn(a, b)
+        return wrapped
+    for op in (Operator.EQ, Operator.GT, Operator.GTE, Operator.LT, Operator.LTE, Operator.NOTEQ):
+        VmMath._fn_table[op] = watch_cmp(VmMath._fn_table[op], op.name)
+    mod = VmMath._fn_table[Operator.MOD]
+
+    def watch_mod(a, b):
+        try:
+            if b and not isinstance(a, bool) and _near(a / b, builtins_round(a / b)):
+                FLOAT_SENSITIVE.append(('MOD', a, b))
+        except Exception:  # noqa
+            pass
+        return mod(a, b)
+    VmMath._fn_table[Operator.MOD] = watch_mod
+
+    import builtins as real_builtins
+    import math as real_math
+    builtins_round = real_builtins.round
+
+    def near_jump(x, half=False):
+        try:
+            y = x * 2 if half else x
+            return _near(y, builtins_round(y))
+        except Exception:  # noqa
+            return False
+
+    class MathShim:
+        def __getattr__(self, k):
+            return getattr(real_math, k)
+
+        def floor(self, x):
+            if near_jump(x):
+                FLOAT_SENSITIVE.append(('floor', x))
+            return real_math.floor(x)
+
+        def ceil(self, x):
+            if near_jump(x):
+                FLOAT_SENSITIVE.append(('ceil', x))
+            return real_math.ceil(x)
+
+        def trunc(self, x):
+            if near_jump(x):
+                FLOAT_SENSITIVE.append(('trunc', x))
+            return real_math.trunc(x)
+
+    class BuiltinsShim:
+        def __getattr__(self, k):
+            return getattr(real_builtins, k)
+
+        def round(self, x, *a):
+            if near_jump(x, half=True):
+                FLOAT_SENSITIVE.append(('round', x))
+            return real_builtins.round(x, *a)
+
+    bardolph_math.math = MathShim()
+    bardolph_math.builtins = BuiltinsShim()
+
+
 class Result:
     pass
 
@@ -103,6 +190,8 @@ def run_script(text, pop, faults=None, job=None, settings_overrides=None, timeou
     res.program = list(job.program) if job.program is not None else None
     res.events = []
     res.fault = None
+    install_float_watch()
+    del FLOAT_SENSITIVE[:]
     res.timeout = False
     if not res.compiled:
         return res
@@ -127,6 +216,9 @@ def run_script(text, pop, faults=None, job=None, settings_overrides=None, timeou
     res.events = vmwire.impl_events(trace)
     stopped = [m for m in shim.errors if m.startswith('Machine stopped due to')]
     res.fault = stopped[0] if stopped else None
+    res.float_sensitive = list(FLOAT_SENSITIVE)
+    res.float_range = bool(res.fault and ('Numerical result out of range' in res.fault or
+                                          'too large' in res.fault or 'Overflow' in res.fault))
     res.log_errors = shim.errors
     res.warnings = shim.warnings
     return res
